@@ -88,6 +88,27 @@ fn run() {
     check_native("state_dump_is_the_same_data", dump == want, || format!("{:?}", dump));
     let acc: Vec<_> = w.app.contract_storage(&k0).range(None, None, Order::Ascending).collect();
     check_native("contract_storage_accessor_is_the_same_data", acc == want, || format!("{:?}", acc));
+    // bounded ranges in both orders through the read-only and the mutable accessor (seed C08e): the same
+    // window of the same data
+    let bounds: [Option<&[u8]>; 4] = [None, Some(b""), Some(b"\x00\x01"), Some(b"n")];
+    for sb in bounds {
+        for eb in bounds {
+            for order in [Order::Ascending, Order::Descending] {
+                let mut expect: Vec<(Vec<u8>, Vec<u8>)> = want
+                    .iter()
+                    .filter(|(k_, _)| sb.map(|s_| k_.as_slice() >= s_).unwrap_or(true) && eb.map(|e_| k_.as_slice() < e_).unwrap_or(true))
+                    .cloned()
+                    .collect();
+                if order == Order::Descending {
+                    expect.reverse();
+                }
+                let ro: Vec<_> = w.app.contract_storage(&k0).range(sb, eb, order).collect();
+                check_native("read_only_accessor_bounded_range_is_the_same_window", ro == expect, || format!("{:?}..{:?} {:?}: {:?} vs {:?}", sb, eb, order, ro, expect));
+                let rw: Vec<_> = w.app.contract_storage_mut(&k0).range(sb, eb, order).collect();
+                check_native("mutable_accessor_bounded_range_is_the_same_window", rw == expect, || format!("{:?}..{:?} {:?}: {:?} vs {:?}", sb, eb, order, rw, expect));
+            }
+        }
+    }
     for (k_, v_) in &want {
         let raw = w.app.wrap().query_wasm_raw(k0.to_string(), k_.clone()).unwrap();
         // (a raw query cannot tell an absent key from an empty value; values here are non-empty)
